@@ -8,6 +8,7 @@ import (
 	"time"
 
 	abci "github.com/cometbft/cometbft/abci/types"
+	cmtproto "github.com/cometbft/cometbft/proto/tendermint/types"
 
 	sdkmath "cosmossdk.io/math"
 
@@ -19,8 +20,8 @@ import (
 	bandtesting "github.com/bandprotocol/chain/v3/testing"
 	"github.com/bandprotocol/chain/v3/x/bandtss"
 	bandtsstypes "github.com/bandprotocol/chain/v3/x/bandtss/types"
-	oracletypes "github.com/bandprotocol/chain/v3/x/oracle/types"
 	"github.com/bandprotocol/chain/v3/x/oracle"
+	oracletypes "github.com/bandprotocol/chain/v3/x/oracle/types"
 	tsstypes "github.com/bandprotocol/chain/v3/x/tss/types"
 
 	"verifharness/internal/fx"
@@ -106,7 +107,10 @@ func runCase(app *fx.App, tr *fx.Trace, r *fx.Rng) {
 			pw := int64(r.PickInt(0, 1, 2, 3, 100, 1000000, 99999999))
 			val, _ := sk.GetValidator(ctx, v.ValAddress)
 			cons, _ := val.GetConsAddr()
-			votes = append(votes, abci.VoteInfo{Validator: abci.Validator{Address: cons, Power: pw}})
+			// the flag says whether the validator's precommit made it into the last commit; the reward rule looks at the
+			// validator set of the last block (every entry), not at who signed
+			flag := []cmtproto.BlockIDFlag{cmtproto.BlockIDFlagCommit, cmtproto.BlockIDFlagCommit, cmtproto.BlockIDFlagAbsent, cmtproto.BlockIDFlagNil}[r.Intn(4)]
+			votes = append(votes, abci.VoteInfo{Validator: abci.Validator{Address: cons, Power: pw}, BlockIdFlag: flag})
 			votesJ = append(votesJ, []any{i, pw, app.OracleKeeper.GetValidatorStatus(ctx, v.ValAddress).IsActive})
 		}
 	}
